@@ -24,10 +24,10 @@ VARIABLES stack, steps
 ovars == <<stack, steps>>
 
 Leaves ==
-       { Leaf(t, CZero, <<>>, <<>>) : t \in LeafSet \cap {"id", "zero", "sq", "l2sq", "l1", "swap"} }
+       { Leaf(t, CZero, <<>>, <<>>) : t \in LeafSet \cap {"id", "zero", "sq", "l2sq", "l1", "swap", "rpart"} }
   \cup { Leaf("scale", a, <<>>, <<>>) : a \in (IF "scale" \in LeafSet THEN Scal ELSE {}) }
   \cup { Leaf("mat", CZero, <<>>, m) : m \in (IF "mat" \in LeafSet THEN Mats ELSE {}) }
-  \cup { Leaf(t, CZero, v, <<>>) : t \in LeafSet \cap {"mulvec", "inner", "const", "shift", "smul"}, v \in Vecs }
+  \cup { Leaf(t, CZero, v, <<>>) : t \in LeafSet \cap {"mulvec", "inner", "const", "shift", "smul", "linfn"}, v \in Vecs }
 
 UnCands(e) ==
        { Un(t, CZero, <<>>, 0, e) : t \in UnSet \cap {"neg"} }
